@@ -6,7 +6,20 @@ case (old content or none, new content, buffer size, API variant) EVERY crash
 point is enumerated — each interposed call, and for each kernel write several
 torn lengths — then the directory is inspected as a restarted process would
 find it.
+
+Two further per-run families widen "at any point" and "the target path":
+  * the length of the target's basename (ordinary, long, within 40 bytes of the
+    directory's NAME_MAX — the temporary file next to the target has a longer
+    name than the target, so near the limit it cannot be created at all);
+  * errno faults: one interposed call fails with an errno (ENOSPC, EACCES,
+    ENAMETOOLONG, EMFILE, EEXIST, EXDEV, EIO, ...), the operation carries on or
+    gives up, and every crash point of whatever it does AFTER the failed call
+    is enumerated too (fault, then crash, inside one operation).
+An operation that reports failure (raises) is held to the same old-or-new
+oracle as a crashed one; one that returns normally must have stored the new
+content.
 """
+import errno
 import hashlib
 import os
 import pickle
@@ -19,20 +32,30 @@ from detsim import fs as simfs
 ID = "C52"
 ENGINE = "fs"
 LEVEL = "fault_enumeration"
-TECHNIQUE = "deterministic simulation: crash at every interposed filesystem call (+ torn writes) of seeded replacement cases, old-or-new oracle"
-QUICK_RUNS = 4800
+TECHNIQUE = "deterministic simulation: crash at every interposed filesystem call (+ torn writes, + after an injected errno failure) of seeded replacement cases, old-or-new oracle"
+QUICK_RUNS = 4000
 BATCH = 20
 COMPONENTS = {"real": ["twisted.python.filepath.FilePath.setContent/temporarySibling/create/open", "twisted.persisted.sob.Persistent.save/_saveTemp",
                        "the real filesystem under a scratch directory (reads)"],
               "stub": ["process/kernel boundary for mutating calls (detsim.fs interposer: crash points, torn writes, user-space buffer loss)",
                        "filepath.randomBytes (deterministic temp names)"]}
-RULE = ("run = one tape-drawn case (API variant, target exists or not, old/new content sizes 0..20 KiB, user-space buffer size) for which every crash point "
+RULE = ("run = one tape-drawn case (API variant, target exists or not, old/new content sizes 0..20 KiB, user-space buffer size, basename length class "
+        "short / 32..200 bytes / NAME_MAX-40..NAME_MAX, errno-fault family on or off with its errnos) for which every crash point "
         "1..N and torn-write lengths {0,1,len/2,len-1} are enumerated, each followed by restart + byte-level inspection + two crash-free saves (a shorter content, then the new content) over whatever the crash left; "
-        "non-trivial = at least 3 crash points enumerated, including a torn write")
+        "with the errno family on, additionally every non-write call fails once with each of the run's 3 open-class / 2 rename-class errnos and the first, the last and one drawn kernel write "
+        "fail with the run's write errno - each such failed-call execution is inspected (raised: old-or-new; returned: new content), followed by the two saves, and then re-run with a crash "
+        "at every call (and torn length) the operation makes after the failed one; "
+        "non-trivial = at least 3 crash points enumerated, including a torn write (a near-limit name for which the temporary cannot be created gives a trivial run on the unchanged tree: "
+        "the operation refuses before touching anything)")
 ASSUMPTIONS = ["POSIX rename() is atomic and data handed to write() before a crash survives (process crash, not power loss; the property and the code make no fsync claim)",
-               "a crash loses everything still in the process's user-space file buffer"]
-LEVEL_TEXT = ("Exhaustive enumeration of crash points (every interposed mutating call, plus torn lengths for every kernel write) for each sampled case; "
-              "cases themselves are sampled by seed. The right level because the property quantifies over crash points, which are finite per case.")
+               "a crash loses everything still in the process's user-space file buffer",
+               "an injected errno failure has no effect on the filesystem (the failed call did nothing; a failed kernel write wrote nothing) and the exception reaches the calling code as OSError(errno)",
+               "no verdict on whether an operation SUCCEEDS for a target name within 40 bytes of NAME_MAX (it may refuse with OSError because its temporary name does not fit) - only old-or-new is demanded "
+               "of a refusal; for every other name a fault-free operation must succeed. The errno is injected at the interposer, the real directory stays writable (the harness runs as root, so mode "
+               "bits cannot produce EACCES for real)"]
+LEVEL_TEXT = ("Exhaustive enumeration of crash points (every interposed mutating call, plus torn lengths for every kernel write) for each sampled case, and of the crash points "
+              "that follow each injected errno failure; cases (contents, name length, which errnos, which writes fail) are sampled by seed. The right level because the property "
+              "quantifies over crash points, which are finite per case.")
 
 
 class Obj:
@@ -62,6 +85,21 @@ def _content(sim, label):
     return sim.draw_blob(sim.draw_int(301, 20000, "len"))
 
 
+# errno values a failing call of each class can plausibly report (value 0 of a draw = first item)
+OPEN_ERRNOS = [errno.ENOSPC, errno.EACCES, errno.ENAMETOOLONG, errno.EMFILE, errno.EEXIST, errno.EROFS, errno.EIO]
+WRITE_ERRNOS = [errno.ENOSPC, errno.EIO, errno.EDQUOT, errno.EFBIG]
+RENAME_ERRNOS = [errno.EACCES, errno.EXDEV, errno.ENOSPC, errno.EBUSY, errno.EPERM, errno.EIO]
+NEAR = 40    # a target name within NEAR bytes of NAME_MAX leaves too little room for *some* longer sibling name: no verdict on success
+
+
+def _op_class(op):
+    if op == "write":
+        return "write"
+    if op in ("rename", "replace"):
+        return "rename"
+    return "open"
+
+
 def run(sim):
     variant = sim.draw_choice(["setContent", "setContent-ext", "sob.save", "sob.save-filename"], "variant")
     exists = sim.draw_bool(0.7, "target_exists")
@@ -72,32 +110,59 @@ def run(sim):
     # user-space buffer size: chosen so a case has at most ~12 kernel writes (enumeration is quadratic in them)
     nchunks = sim.draw_choice([1, 2, 3, 5, 12], "nchunks")
     bufsize = 8192 if nchunks == 1 else max(4, -(-(len(new) + 200) // nchunks))
-    sim.config = {"variant": variant, "exists": exists, "old_len": None if old is None else len(old), "new_len": len(new), "bufsize": bufsize}
-    sim.event("case", variant, "old", "-" if old is None else len(old), "new", len(new), "buf", bufsize)
+    # length of the target's basename in bytes: ordinary, long, or within NEAR bytes of the directory's NAME_MAX
+    # (the temporary name next to the target is longer than the target's own name)
+    name_class = sim.draw_weighted([("short", 14), ("long", 2), ("near-limit", 4)], "name_class")
+    name_slack = sim.draw_int(0, NEAR, "name_slack") if name_class == "near-limit" else None
+    name_len = sim.draw_int(32, 200, "name_len") if name_class == "long" else None
+    # errno-fault family: one call of the operation fails with an errno, the operation goes on (or gives up) and every crash
+    # point of what it does afterwards is enumerated as well
+    faults = sim.draw_bool(0.5, "errno_faults")
+    errs = None
+    if faults:
+        errs = {"open": sim.draw_perm(OPEN_ERRNOS)[:3], "rename": sim.draw_perm(RENAME_ERRNOS)[:2], "write": [sim.draw_choice(WRITE_ERRNOS, "write_errno")]}
+    write_pick = sim.draw_int(0, 11, "write_fault_pick") if faults else 0
+    sim.config = {"variant": variant, "exists": exists, "old_len": None if old is None else len(old), "new_len": len(new), "bufsize": bufsize,
+                  "name_class": name_class, "name_slack": name_slack, "name_len": name_len, "errno_faults": None if errs is None else {c: [errno.errorcode[e] for e in errs[c]] for c in sorted(errs)}}
     _ctr[0] = 0
     F = simfs.FS(sim, bufsize=bufsize)
     saved_rb = filepath.randomBytes
     filepath.randomBytes = _fake_random
     bindings = [(filepath, "os", "os"), (filepath, "open", "open"), (sob, "os", "os"), (sob, "open", "open")]
     try:
+        name_max = os.pathconf(F.root, "PC_NAME_MAX")
+        if name_class == "near-limit":
+            name_len = name_max - name_slack
+        sim.event("case", variant, "old", "-" if old is None else len(old), "new", len(new), "buf", bufsize,
+                  "name", name_class, "-" if name_len is None else name_max - name_len, "faults", int(faults))
         with simfs.Installed(F, bindings):
-            _enumerate(sim, F, variant, old, new)
+            _enumerate(sim, F, variant, old, new, name_class, name_len, errs, write_pick)
     finally:
         filepath.randomBytes = saved_rb
         F.destroy()
 
 
-def _enumerate(sim, F, variant, old, new):
+def _enumerate(sim, F, variant, old, new, name_class, name_len, errs, write_pick):
     is_sob = variant.startswith("sob")
     d = os.path.join(F.root, "d")
-    if variant == "sob.save":
-        tname = "app.tap"
-    else:
-        tname = "target.dat"
+    suffix = ".tap" if variant == "sob.save" else ".dat"
+    stem = "app" if variant == "sob.save" else "target"
+    if name_len is not None:
+        stem = (stem + "-" + "n" * name_len)[:name_len - len(suffix)]
+    tname = stem + suffix
     target = os.path.join(d, tname)
+    # a near-limit name may legitimately make the operation fail (the temporary's longer name does not fit): then the statement only
+    # asks for old-or-new; for every other name a fault-free operation has to succeed
+    may_fail = name_class == "near-limit"
+
+    encoded = {}
 
     def encode(content):
-        return pickle.dumps(Obj(content), 2) if is_sob else content
+        if content is None or not is_sob:
+            return content
+        if content not in encoded:
+            encoded[content] = pickle.dumps(Obj(content), 2)
+        return encoded[content]
 
     def reset():
         F.reboot()
@@ -119,11 +184,22 @@ def _enumerate(sim, F, variant, old, new):
             cwd = os.getcwd()
             os.chdir(d)
             try:
-                sob.Persistent(Obj(content), "app").save()
+                sob.Persistent(Obj(content), stem).save()
             finally:
                 os.chdir(cwd)
         else:
             sob.Persistent(Obj(content), "app").save(filename=target)
+
+    def attempt(content, **arm):
+        """One call of the operation under the armed faults -> ("ok" | "failed" | "crashed", exception)."""
+        F.arm(**arm)
+        try:
+            operate(content)
+        except simfs.SimCrash:
+            return "crashed", None
+        except Exception as e:      # operate() runs only code under test: no oracle exception can be swallowed here
+            return "failed", e
+        return "ok", None
 
     def read_target():
         if not os.path.exists(target):
@@ -144,10 +220,10 @@ def _enumerate(sim, F, variant, old, new):
         with open(target, "rb") as f:
             return f.read()
 
-    def raw_ok(content):
-        # byte-level comparison: a pickle followed by stale bytes still *loads*, so the decoded comparison alone would accept it
-        raw = read_raw()
-        return raw == (None if content is None else encode(content))
+    def holds(content):
+        # byte-level comparison (it implies that the decoded payload is equal): a pickle followed by stale bytes still *loads*, so a
+        # comparison of the decoded object alone would accept it
+        return read_raw() == encode(content)
 
     def is_temp(name):
         if variant == "setContent":
@@ -155,64 +231,122 @@ def _enumerate(sim, F, variant, old, new):
         if variant == "setContent-ext":
             return name != tname and name.endswith(tname + ".tmp")
         if variant == "sob.save":
-            return name == "app-2.tap"
+            return name == stem + "-2.tap"
         return name == tname + "-2"
 
-    # crash-free run: counts the crash points and must produce the new content
+    def strays():
+        return [x for x in sorted(os.listdir(d)) if x != tname and not is_temp(x)]
+
+    def torn_lengths(op, size):
+        if op == "write" and size:
+            return [t for t in sorted(set([0, 1, size // 2, size - 1]) - {size}) if 0 <= t < size]
+        return [0]
+
+    def resave(wit, what):
+        # the restarted (or surviving) process saves again - first a SHORTER content (so a scratch file left by the earlier attempt,
+        # if reused without truncation, would show its stale tail), then the original new content: each must leave exactly what was saved
+        short = new[:len(new) // 3]
+        for label, content in (("shorter", short), ("same", new)):
+            before = read_raw()
+            outcome, exc = attempt(content)
+            if outcome == "failed" and may_fail:
+                sim.probe("name-too-long-refused")
+                sim.check("error-old-or-new", read_raw() in (before, encode(content)), wit + "/" + label,
+                          lambda: "refused save of %s content after %s: target went from %s to %s" % (label, what, _d(before), _d(read_raw())))
+            else:
+                if outcome != "ok":
+                    sim.fail("retry-raised", "%s:%s" % (wit, type(exc).__name__), "%s: %s" % (type(exc).__name__, str(exc)[:200]))
+                sim.check("retry-new-content", holds(content), wit + "/" + label,
+                          lambda: "save of %s content after %s left %s (raw %s, expected raw %s)"
+                          % (label, what, _d(read_target()), _d(read_raw()), _d(encode(content))))
+            left = strays()
+            sim.check("only-temporaries-left", not left, wit + "/" + label, lambda: "stray files after a completed save: %r" % left)
+
+    def after_crash(wit, what):
+        F.reboot()
+        got = read_raw()
+        sim.check("old-or-new", got == encode(new) or got == encode(old), wit,
+                  lambda: "%s: target holds %s (raw %s); old=%s new=%s" % (what, _d(read_target()), _d(got), _d(old), _d(new)))
+        left = strays()
+        sim.check("only-temporaries-left", not left, wit, lambda: "stray files after %s: %r" % (what, left))
+        resave(wit, what)
+
+    # fault-free run: counts the crash points and must produce the new content
     reset()
-    F.arm()
-    with sim.guard("crash-free-raised", variant):
-        operate(new)
+    outcome, exc = attempt(new)
+    base_outcome = outcome
     npoints = F.n
     plan = list(F.log)
-    sim.check("crash-free-new-content", read_target() == new and raw_ok(new), variant, "crash-free operation did not leave the new content")
-    sim.check("crash-free-no-leftovers", sorted(os.listdir(d)) == [tname], variant, lambda: "left: %r" % sorted(os.listdir(d)))
-    sim.event("points", npoints, " ".join(p[1] for p in plan))
-    sim.check("has-crash-points", npoints >= 2, variant, "interposer saw %d mutating calls" % npoints)
+    if outcome == "failed" and may_fail:
+        sim.probe("name-too-long-refused")
+        sim.check("error-old-or-new", holds(old), variant, lambda: "refused operation left %s; old=%s" % (_d(read_raw()), _d(encode(old))))
+    else:
+        if outcome != "ok":
+            sim.fail("crash-free-raised", "%s:%s" % (variant, type(exc).__name__), "%s: %s" % (type(exc).__name__, str(exc)[:200]))
+        sim.check("crash-free-new-content", holds(new), variant, "crash-free operation did not leave the new content")
+        sim.check("crash-free-no-leftovers", sorted(os.listdir(d)) == [tname], variant, lambda: "left: %r" % sorted(os.listdir(d)))
+        sim.check("has-crash-points", npoints >= 2, variant, "interposer saw %d mutating calls" % npoints)
+    sim.event("points", outcome, npoints, " ".join(p[1] for p in plan))
+    if name_class != "short":
+        sim.probe("name:" + name_class)
     torn_seen = 0
     for (n, op, rel, size) in plan:
-        torns = [0]
-        if op == "write" and size:
-            torns = sorted(set([0, 1, size // 2, size - 1]) - {size})
-            torns = [t for t in torns if 0 <= t < size]
-        for torn in torns:
+        for torn in torn_lengths(op, size):
             reset()
-            F.arm(crash_at=n, torn=torn)
-            crashed = False
-            try:
-                operate(new)
-            except simfs.SimCrash:
-                crashed = True
-            sim.check("crash-fired", crashed and F.crashed_op == op, variant, "crash point %d (%s) did not fire identically" % (n, op))
+            crashed, _ = attempt(new, crash_at=n, torn=torn)
+            sim.check("crash-fired", crashed == "crashed" and F.crashed_op == op, variant, "crash point %d (%s) did not fire identically" % (n, op))
             sim.fault("crash@" + op)
             if op == "write" and torn:
                 sim.fault("torn_write")
                 torn_seen += 1
-            F.reboot()
-            got = read_target()
-            wit = "%s@%s" % (variant, op)
-            ok = ((got == new) and raw_ok(new)) or ((got == old) and raw_ok(old))
-            sim.check("old-or-new", ok, wit,
-                      lambda: "crash at point %d/%d (%s %s, torn=%s): target holds %s; old=%s new=%s"
-                      % (n, npoints, op, rel, torn, _d(got), _d(old), _d(new)))
-            left = sorted(os.listdir(d))
-            stray = [x for x in left if x != tname and not is_temp(x)]
-            sim.check("only-temporaries-left", not stray, wit, "stray files after crash at %d (%s): %r" % (n, op, stray))
-            # the restarted process saves again - first a SHORTER content (so a scratch file left by the crashed attempt, if reused
-            # without truncation, would show its stale tail), then the original new content: each must leave exactly what was saved
-            short = new[:len(new) // 3]
-            for label, content in (("shorter", short), ("same", new)):
-                F.arm()
-                with sim.guard("retry-raised", wit):
-                    operate(content)
-                sim.check("retry-new-content", read_target() == content and raw_ok(content), wit + "/" + label,
-                          lambda: "save of %s content after crash at %d (%s) left %s (raw %s, expected raw %s)"
-                          % (label, n, op, _d(read_target()), _d(read_raw()), _d(encode(content))))
-                stray = [x for x in sorted(os.listdir(d)) if x != tname and not is_temp(x)]
-                sim.check("only-temporaries-left", not stray, wit + "/" + label, lambda: "stray files after a completed save: %r" % stray)
+            after_crash("%s@%s" % (variant, op), "crash at point %d/%d (%s %s, torn=%s)" % (n, npoints, op, rel, torn))
             sim.step(100000)
+
+    # errno faults: every non-write call with the run's errnos of its class (3 open-class, 2 rename-class), the first / last / one drawn
+    # kernel write with the run's write errno
+    post_points = 0
+    if errs:
+        writes = [p for p in plan if p[1] == "write"]
+        chosen = set(p[0] for p in plan if p[1] != "write")
+        if writes:
+            chosen.update([writes[0][0], writes[-1][0], writes[write_pick % len(writes)][0]])
+        for (k, op, rel, size) in plan:
+            if k not in chosen:
+                continue
+            for err in errs[_op_class(op)]:
+                ename = errno.errorcode[err]
+                reset()
+                outcome, exc = attempt(new, errno_at=k, err=err)
+                sim.check("fault-fired", outcome != "crashed" and F.crashed_op == op, variant, "errno fault at call %d (%s) did not fire identically" % (k, op))
+                sim.fault("errno@" + op)
+                fplan = list(F.log)
+                wit = "%s@%s" % (variant, op)
+                what = "%s at call %d (%s %s)" % (ename, k, op, rel)
+                if outcome == "ok":
+                    # the operation coped with the error and reported success: then the new content has to be there
+                    sim.check("error-then-success-new-content", holds(new), wit, lambda: "operation returned normally after %s, target holds %s" % (what, _d(read_raw())))
+                else:
+                    sim.probe("fault-reported:" + type(exc).__name__)
+                    sim.check("error-old-or-new", read_raw() in (encode(new), encode(old)), wit,
+                              lambda: "operation failed (%s) after %s: target holds %s; old=%s new=%s" % (type(exc).__name__, what, _d(read_raw()), _d(encode(old)), _d(encode(new))))
+                left = strays()
+                sim.check("only-temporaries-left", not left, wit, lambda: "stray files after %s: %r" % (what, left))
+                resave(wit, what)
+                sim.event("fault", k, op, ename, outcome, " ".join(p[1] for p in fplan[k:]))
+                # ... and a crash at every call the operation makes AFTER the failed one (clean-up, fall-backs, the flush on close)
+                for (n, op2, rel2, size2) in fplan[k:]:
+                    for torn in torn_lengths(op2, size2):
+                        reset()
+                        crashed, _ = attempt(new, crash_at=n, torn=torn, errno_at=k, err=err)
+                        sim.check("crash-fired", crashed == "crashed" and F.crashed_op == op2, variant,
+                                  "crash point %d (%s) after %s did not fire identically" % (n, op2, what))
+                        sim.fault("errno-then-crash@" + op2)
+                        post_points += 1
+                        after_crash("%s@%s-after-failed-%s" % (variant, op2, op),
+                                    "%s, then crash at point %d/%d (%s %s, torn=%s)" % (what, n, len(fplan), op2, rel2, torn))
+                        sim.step(100000)
     sim.nontrivial = npoints >= 3 and torn_seen > 0
-    sim.state((variant, npoints, old is None))
+    sim.state((variant, npoints, old is None, name_class, base_outcome, errs is not None, min(post_points, 3)))
 
 
 def _d(x):
@@ -221,3 +355,17 @@ def _d(x):
     if isinstance(x, tuple):
         return repr(x)
     return "<%d bytes %s>" % (len(x), hashlib.sha256(x).hexdigest()[:8])
+
+
+MUTANTS = [
+    "seeded C52-rename-before-close (setContent renames inside the with block, data still buffered): caught, old-or-new:setContent@write",
+    "seeded C52-r2-savetemp-no-trunc (sob scratch file opened without O_TRUNC): caught, retry-new-content:sob.save@write/shorter",
+    "seeded C52-r3-inplace-fallback (setContent rewrites the target in place when the sibling cannot be created, EACCES/ENAMETOOLONG): caught two ways, "
+    "old-or-new:setContent@write-after-failed-os.open (errno family) and old-or-new:setContent@write (near-limit basename)",
+    "sob.save: `except OSError:` around _saveTemp -> _saveTemp(finalname) and return: caught, old-or-new:sob.save@write-after-failed-open(w)",
+    "setContent: `except OSError:` around os.rename -> rewrite self.open('w') in place, unlink sibling: caught, old-or-new:setContent@write-after-failed-rename",
+    "sob.save: OSError of _saveTemp only logged, rename of the partial scratch file goes ahead: caught, error-then-success-new-content:sob.save@write",
+    "setContent: OSError while writing the sibling swallowed when the sibling exists, rename goes ahead: caught, error-then-success-new-content:setContent@write",
+    "setContent: `except OSError: os.unlink(self.path); raise` clean-up around the sibling write: caught, error-old-or-new:setContent@os.open",
+    "sob.save: scratch name longer than 255 bytes -> _saveTemp(finalname) directly: caught, old-or-new:sob.save-filename@write (near-limit basename)",
+]
